@@ -18,7 +18,67 @@ SPECS["C17"] = {
                       "transition = (state, call kind, npts relation same/different/omitted/invalid)"),
     "real": ["esutil.integrate QGauss/QGauss2/qgauss/gauleg (Python and _cgauleg C)", "esutil.stat.interplin"],
     "stub": [],
+    "expect_reach": ["npts_changed_on_live_object", "call_after_aborted_call", "integrand_raised",
+                     "bad_npts_rejected", "bad_range_rejected"],
+    "manifest": {
+        "design_ref": "3.4",
+        "level_text": ("seeded search over call histories (changing/repeated/omitted point counts, integrands "
+                       "that raise half-way, rejected requests) on one reused integrator object; every valid "
+                       "call is judged against an independent Gauss-Legendre rule and against a fresh object "
+                       "(bit equality). Sampling, not proof."),
+        "level_note": ("trusts numpy leggauss (n<=48) / own Newton reference validated against it, numpy.interp; "
+                       "integrands are smooth in the normalised coordinate; bounds: <=12 calls per history, "
+                       "npts<=2000"),
+        "technique": ("deterministic simulation: seeded call-history search on a stateful object with injected "
+                      "aborted calls; per-step refinement against a reference model"),
+    },
     "assumptions": ["numpy.polynomial.legendre.leggauss and numpy.interp are correct (reference rule and "
                     "interpolant)", "integrands are smooth functions of the normalised coordinate (Lipschitz "
                     "O(10)); tabulated x strictly increasing"],
+}
+
+SPECS["C20"] = {
+    "parts": [
+        {"engine": "progsim", "mode": "wrap", "quick": 60000, "thorough": 4000000},
+        {"engine": "progsim", "mode": "pool", "quick": 5000, "thorough": 150000, "batch": 25},
+    ],
+    "cap_quick": 100, "cap_thorough": 3000,
+    "rule": ("wrap: one run = one progress wrapper (pbar/PBar/prange/sbar, random option set) around an "
+             "instrumented iterable, consumed next() by next() by a simulated consumer under a scripted "
+             "clock (ticks, stalls, forward and backward jumps), optionally abandoned or with a source that "
+             "raises; non-trivial when at least one item was delivered and a clock fault, length-less "
+             "source, wrong total, failing source or abandonment was in play.  pool: one run = one pmap "
+             "call on real forked workers whose completion order is fixed by a virtual-time pool model and "
+             "enforced through per-item gates; non-trivial when completion order differs from submission "
+             "order.  distinct = distinct event-log digests among non-trivial runs"),
+    "state_measure": ("wrap: state = (entry/option class, source kind, items delivered bucket, clock regime), "
+                      "transition = (state, pull|abandon); pool: state = (nproc, #chunks bucket, inversion "
+                      "bucket of the completion order), transitions = distinct completion orders sigma"),
+    "real": ["esutil.pbar (pbar/PBar/prange/sbar/pmap/format_meter)",
+             "concurrent.futures.ProcessPoolExecutor with real forked worker processes, its queues and threads",
+             "esutil.algorithm.quicksort/quicksort_keyvalue/isplit", "esutil.numpy_util.splitarray"],
+    "stub": ["wall clock (SimClock installed as esutil.pbar.time and time.time)",
+             "task latencies (virtual time; the resulting completion order is enforced on the real workers)",
+             "the wrapped iterable and the consumer (instrumented)"],
+    "expect_reach": ["clock_back", "clock_jump", "clock_stall", "consumer_abandoned", "source_raised",
+                     "lengthless_source", "wrong_total", "out_of_order_completion", "straggler", "exact_tie",
+                     "more_workers_than_chunks", "empty_input", "chunk_larger_than_input", "single_worker"],
+    "manifest": {
+        "design_ref": "3.6",
+        "level_text": ("seeded search over (a) option sets x instrumented iterables x scripted clocks (stalls, "
+                       "forward/backward jumps) x consumer behaviour (abandon, failing source) for the progress "
+                       "wrappers and (b) process schedules for pmap: the completion order of real forked workers "
+                       "is decided by a virtual-time pool model and enforced through gates, then the result is "
+                       "compared with list(map(fn, items)). Sampling, not proof."),
+        "level_note": ("fork start method; FIFO dispatch model of ProcessPoolExecutor (a run that does not follow it "
+                       "is inconclusive, not a violation); worker death not simulated; pure clauses (sorts, isplit, "
+                       "splitarray) only sampled inside pipelines"),
+        "technique": ("deterministic simulation: simulated clock + scripted consumer/source faults; seeded schedule "
+                      "search with enforced completion order on a real process pool"),
+    },
+    "assumptions": ["fork start method; worker death (BrokenProcessPool) not simulated",
+                    "pure clauses (sorts, isplit, splitarray) are only sampled as stages of simulated pipelines, "
+                    "the exhaustive 200x60 sweep is not performed",
+                    "a pool run whose real dispatch does not follow the FIFO model within the watchdog is "
+                    "counted as inconclusive, never as a violation"],
 }
